@@ -1,10 +1,422 @@
-"""Engines other than pegdiff (unitdiff, gendiff, fsdiff, frontend, routes)."""
+"""Engines other than pegdiff: unitdiff (matchers, pretty errors, header CRC), fsdiff (build-script
+histories)."""
+import collections
+import itertools
+import os
+import random
+import shutil
+import subprocess
+import tempfile
+import time
+from .common import CACHE, PEGVERIF, TARGET, build_harness, log
+
+PVUNIT = os.path.join(TARGET, 'debug', 'pvunit')
+PVGEN = os.path.join(TARGET, 'debug', 'pvgen')
+
+
+def hx(s):
+    b = s.encode('utf-8') if isinstance(s, str) else s
+    return b.hex() or '-'
+
+
+def run_unit(ops):
+    """run the same op lines through the real code and the model; returns (impl lines, model lines)"""
+    ok, err, dt = build_harness()
+    if not ok:
+        raise RuntimeError('harness build failed:\n' + err[-3000:])
+    d = os.path.join(CACHE, 'unit')
+    os.makedirs(d, exist_ok=True)
+    f = os.path.join(d, 'ops-%d.txt' % os.getpid())
+    with open(f, 'w') as fh:
+        fh.write('\n'.join(ops) + '\n')
+    p = subprocess.run([PVUNIT, 'unit'], stdin=open(f), stdout=subprocess.PIPE, stderr=subprocess.DEVNULL, text=True, timeout=1800)
+    impl = p.stdout.splitlines()
+    if p.returncode != 0 or len(impl) != len(ops):
+        # crashed: mark the rest
+        impl = impl + ['CRASH rc=%s' % p.returncode] * (len(ops) - len(impl))
+    m = subprocess.run([PEGVERIF, 'unit', f], stdout=subprocess.PIPE, stderr=subprocess.PIPE, text=True, timeout=1800)
+    if m.returncode != 0:
+        raise RuntimeError('model driver failed: ' + m.stderr[-1000:])
+    model = m.stdout.splitlines()
+    os.remove(f)
+    return impl, model
+
+
+# ------------------------------------------------------------------------------------------- C11
+RUST_WS = set(map(chr, list(range(9, 14)) + [0x20, 0x85, 0xA0, 0x1680] + list(range(0x2000, 0x200B)) +
+                  [0x2028, 0x2029, 0x202F, 0x205F, 0x3000]))
+
+
+def rust_trim_end(s):
+    while s and s[-1] in RUST_WS:
+        s = s[:-1]
+    return s
+
+
+def expected_pretty(text, pos, fname):
+    """ground truth straight from the property statement"""
+    b = text.encode()
+    before = b[:pos].decode()
+    line_no = before.count('\n') + 1
+    start = before.rfind('\n') + 1
+    col = len(before[start:]) + 1
+    rest = b[pos:].decode()
+    end = rest.find('\n')
+    line = before[start:] + (rest if end < 0 else rest[:end])
+    loc = ('%s:%d:%d' % (fname, line_no, col)) if fname is not None else ('Line %d character %d' % (line_no, col))
+    return 'expected end of input\n--> %s\n |  \n |  %s\n |  %s^\n' % (loc, rust_trim_end(line), ' ' * (col - 1))
+
+
+def pretty_cases(seed, tier):
+    rng = random.Random(seed)
+    alpha = ['a', 'é', '\n', ' ']
+    maxlen = 7 if tier == 'thorough' else 5
+    texts = ['']
+    for n in range(1, maxlen + 1):
+        for t in itertools.product(alpha, repeat=n):
+            texts.append(''.join(t))
+    # random longer texts with other characters (tabs, CR, non-breaking and ideographic spaces, 3/4-byte chars)
+    pool = ['a', 'b', 'é', '€', '😀', '\n', ' ', '\t', '\r', ' ', '　', 'x']
+    for _ in range(3000 if tier == 'thorough' else 400):
+        n = rng.randint(1, 60)
+        texts.append(''.join(rng.choice(pool) for _ in range(n)))
+    for _ in range(200):
+        line = ''.join(rng.choice(['a', 'é', ' ']) for _ in range(rng.randint(80, 300)))
+        texts.append(line + rng.choice(['', '\n', '\nz']))
+    cases = []
+    for t in texts:
+        b = t.encode()
+        bounds = [i for i in range(len(b) + 1) if i == len(b) or (b[i] & 0xC0) != 0x80]
+        if len(t) > 8:
+            bounds = sorted(set(rng.sample(bounds, min(len(bounds), 6)) + [0, len(b)]))
+        for p in bounds:
+            cases.append((t, p, None if (len(cases) % 3) else 'src/g.ebnf'))
+    return cases
+
+
+def run_C11(seed, tier):
+    t0 = time.time()
+    cases = pretty_cases(seed, tier)
+    ops = ['pretty %s %d %s' % (hx(t), p, hx(f) if f is not None else '-') for t, p, f in cases]
+    impl, model = run_unit(ops)
+    res = dict(evaluations=len(cases), nontrivial=set(), samples=[], strict=[], prop=[], distribution=collections.Counter())
+    for (t, p, f), i, m in zip(cases, impl, model):
+        exp = expected_pretty(t, p, f)
+        b = t.encode()
+        kind = ('empty' if not t else 'eof' if p == len(b) else 'eol' if b[p:p + 1] == b'\n' else 'bol' if p > 0 and b[p - 1:p] == b'\n' else 'mid')
+        res['distribution'][kind] += 1
+        res['nontrivial'].add((kind, t.count('\n') > 0, any(ord(c) > 127 for c in t), len(t) > 8, f is not None))
+        rp = dict(kind='unit', what='', op='pretty', text=t, text_hex=hx(t), position=p, file=f, impl=i, model=m)
+        if not i.startswith('P '):
+            rp['what'] = 'conversion to the pretty form panicked/crashed: ' + i
+            res['prop'].append(rp)
+            continue
+        got = bytes.fromhex(i[2:]).decode()
+        if got != exp:
+            rp['what'] = 'pretty error does not point at line/column of the position'
+            rp['expected'] = exp
+            rp['got'] = got
+            res['prop'].append(rp)
+        if i != m:
+            rp2 = dict(rp)
+            rp2['what'] = 'PrettyParseError output: model vs implementation'
+            res['strict'].append(rp2)
+        if len(res['samples']) < 4 and kind in ('eol', 'eof', 'bol') and len(t) < 8 and len(res['samples']) < 4 and hash((t, p)) % 50 == 0:
+            res['samples'].append(dict(text=t, position=p, file=f, output=got))
+    if not res['samples']:
+        t, p, f = cases[len(cases) // 2]
+        res['samples'].append(dict(text=t, position=p, file=f))
+    res['engine'] = 'unitdiff'
+    res['rule'] = ('all texts over {a, é, \\n, space} up to length %d x all boundary positions x with/without file name, plus random longer texts '
+                   '(tabs, CR, U+00A0, U+3000, 3- and 4-byte characters, long lines); distinct per (position kind, has newline, multi-byte, long, file)' % (7 if tier == 'thorough' else 5))
+    res['exhaustive_small'] = True
+    res['wall_s'] = time.time() - t0
+    return res
+
+
+# ------------------------------------------------------------------------------------------- matchers (C04 part 2, C01 terminals)
+def matcher_ops(seed, tier):
+    rng = random.Random(seed)
+    alpha = ['a', 'A', 'z', 'Z', '0', 'é', 'É', '€', '😀', ' ', '\n', '\x0b', ' ', '\t']
+    maxlen = 3 if tier == 'thorough' else 2
+    inputs = ['']
+    for n in range(1, maxlen + 1):
+        for t in itertools.product(alpha, repeat=n):
+            inputs.append(''.join(t))
+    chars = ['a', 'A', 'z', 'é', 'É', '€', '😀', ' ', '\n', '~', '\x7f', '\x80', 'ÿ', 'Ā', '￿', '\U00010000']
+    lits = ['', 'a', 'az', 'aé', 'é', '€a', 'a ', 'zz', 'É', '😀', 'aa']
+    ilits = ['az', 'a', 'za', '0a', 'a a', 'zz']
+    ranges = [('a', 'z'), ('A', 'Z'), ('a', 'a'), ('z', 'a'), ('a', 'é'), ('é', '€'), ('\x00', '\x7f'), ('\x7f', '\x80'), ('€', '😀'), ('0', '9'), (' ', '~')]
+    ops = []
+    for inp in inputs:
+        b = inp.encode()
+        offs = [i for i in range(len(b) + 1) if i == len(b) or (b[i] & 0xC0) != 0x80]
+        for off in offs:
+            for far in ['-'] + ([str(len(b))] if len(inp) == 2 else []):
+                head = '%s %d %s' % (hx(inp), off, far)
+                ops.append('m char ' + head)
+                ops.append('m ws ' + head)
+                ops.append('m eoi ' + head)
+                for c in chars:
+                    ops.append('m chrlit %s %d' % (head, ord(c)))
+                for c in 'az0 ':
+                    ops.append('m chrliti %s %d' % (head, ord(c)))
+                for l in lits:
+                    ops.append('m strlit %s %s' % (head, hx(l)))
+                for l in ilits:
+                    ops.append('m strliti %s %s' % (head, hx(l)))
+                for a, z in ranges:
+                    ops.append('m range %s %d %d' % (head, ord(a), ord(z)))
+    return ops
+
+
+def run_matchers(seed, tier, pid):
+    t0 = time.time()
+    ops = matcher_ops(seed, tier)
+    impl, model = run_unit(ops)
+    res = dict(evaluations=len(ops), nontrivial=set(), samples=[], strict=[], prop=[], distribution=collections.Counter())
+    for op, i, m in zip(ops, impl, model):
+        p = op.split(' ')
+        inp = bytes.fromhex(p[2]) if p[2] != '-' else b''
+        kind = i.split(' ')[0]
+        res['distribution'][p[1] + ':' + kind] += 1
+        res['nontrivial'].add((p[1], kind, any(x > 127 for x in inp), tuple(p[5:])))
+        rp = dict(kind='unit', op=op, impl=i, model=m, what='')
+        if kind in ('PANIC', 'CRASH'):
+            rp['what'] = 'runtime matcher panicked: ' + i
+            res['prop'].append(rp)
+        elif kind in ('OK', 'ERR'):
+            off = int(i.split(' ')[1])
+            if off > len(inp) or (off < len(inp) and (inp[off] & 0xC0) == 0x80):
+                rp['what'] = 'matcher produced an offset that is not a character boundary inside the input'
+                res['prop'].append(rp)
+        if i != m:
+            rp2 = dict(rp)
+            rp2['what'] = 'runtime matcher: model vs implementation'
+            res['strict'].append(rp2)
+    res['samples'] = [dict(op=ops[k], impl=impl[k], model=model[k]) for k in (7, len(ops) // 3, len(ops) // 2)]
+    res['engine'] = 'unitdiff'
+    res['rule'] = ('all inputs over a 14-character alphabet (all four UTF-8 length classes, case pairs, whitespace and near misses) up to length %d x all boundary offsets x 8 matchers x '
+                   'literal/range argument pools; distinct per (matcher, outcome, non-ASCII input, arguments)' % (3 if tier == 'thorough' else 2))
+    res['wall_s'] = time.time() - t0
+    return res
+
+
+# ------------------------------------------------------------------------------------------- C18 fsdiff
+GRAMMARS_OK = ["@export\nA = 'x';\n", "@export\nA = 'y';\n", "@export\nA = 'x' b:B;\nB = 'b';\n", "@export\nA = {'x'};\n# c\n",
+               "@export\nA = 'x';\n# mv48hbz4\n", "@export\nA = 'y';\n# pxz11qsd\n"]
+GRAMMARS_BAD = ["@export\nA = 'x'", "A = ;;;", "@export A = !b:B; B='x';", "", "@export\nA = >Missing;\n"]
+PREFIXES = ['', 'use a;', 'use a;\nuse b;', 'use a;\n', '// p', 'pub struct X;', 'use a;\nuse b;\nuse c;']
+K1_PAIR = ("@export\nA = 'x';\n# mv48hbz4\n", "@export\nA = 'y';\n# pxz11qsd\n")
+
+
+def fs_histories(seed, tier):
+    rng = random.Random(seed)
+    n = 3000 if tier == 'thorough' else 300
+    hs = []
+    # directed histories first: prefix shrink/removal (F6), failing run keeps destination, delete+run
+    directed = [
+        ['G0', 'P2', 'R', 'P1', 'R', 'P0', 'R'],
+        ['G0', 'P1', 'R', 'P0', 'R', 'R'],
+        ['G0', 'R', 'B0', 'R', 'G1', 'R'],
+        ['G0', 'R', 'D', 'R', 'R'],
+        ['G0', 'R', 'N', 'R', 'G0', 'R'],
+        ['B1', 'R', 'G2', 'R', 'B2', 'R', 'R'],
+        ['G0', 'P3', 'R', 'P1', 'R', 'P2', 'R', 'P6', 'R', 'P2', 'R'],
+    ]
+    for d in directed:
+        for mode in ('file', 'dest', 'dir'):
+            hs.append((mode, ['D' if (o == 'N' and mode == 'dir') else o for o in d]))
+    # known finding K1 (two grammars with equal CRC-32) is replayed deterministically
+    hs.append(('file', ['GK0', 'R', 'GK1', 'R']))
+    while len(hs) < n:
+        k = rng.randint(2, 12)
+        ops = []
+        for _ in range(k):
+            p = rng.random()
+            if p < 0.40:
+                ops.append('R')
+            elif p < 0.60:
+                ops.append('G%d' % rng.randrange(4))     # excludes the colliding pair (known finding K1, replayed separately)
+            elif p < 0.72:
+                ops.append('B%d' % rng.randrange(len(GRAMMARS_BAD)))
+            elif p < 0.90:
+                ops.append('P%d' % rng.randrange(len(PREFIXES)))
+            elif p < 0.96:
+                ops.append('D')
+            else:
+                ops.append('N')
+        ops.append('R')
+        mode = rng.choice(['file', 'dest', 'dir'])
+        if mode == 'dir':
+            ops = ['G%d' % rng.randrange(4)] + ['D' if o == 'N' else o for o in ops]
+        hs.append((mode, ops))
+    return hs
+
+
+def fs_lines(hs):
+    lines = []
+    for i, (mode, ops) in enumerate(hs):
+        lines.append('H h%d %s' % (i, mode))
+        for o in ops:
+            if o == 'R':
+                lines.append('R')
+            elif o == 'D':
+                lines.append('D')
+            elif o == 'N':
+                lines.append('G NONE')
+            elif o.startswith('GK'):
+                lines.append('G ' + hx(K1_PAIR[int(o[2:])]))
+            elif o[0] == 'G':
+                lines.append('G ' + hx(GRAMMARS_OK[int(o[1:])]))
+            elif o[0] == 'B':
+                lines.append('G ' + hx(GRAMMARS_BAD[int(o[1:])]))
+            elif o[0] == 'P':
+                lines.append('P ' + hx(PREFIXES[int(o[1:])]))
+    return lines
+
+
+def run_fs(hs, workname):
+    ok, err, dt = build_harness()
+    if not ok:
+        raise RuntimeError('harness build failed:\n' + err[-3000:])
+    d = tempfile.mkdtemp(prefix='pvfs-')
+    try:
+        # the compiler as a table: every grammar text through the real library route
+        texts = GRAMMARS_OK + GRAMMARS_BAD + list(K1_PAIR)
+        lst = os.path.join(d, 'list.txt')
+        with open(lst, 'w') as f:
+            for i, t in enumerate(texts):
+                p = os.path.join(d, 't%d.ebnf' % i)
+                with open(p, 'wb') as g:
+                    g.write(t.encode())
+                f.write('t%d\t%s\t%s\t-\t-\n' % (i, p, os.path.join(d, 't%d.code' % i)))
+        p = subprocess.run([PVGEN, 'gen', lst], stdout=subprocess.PIPE, stderr=subprocess.DEVNULL, text=True, timeout=300)
+        outcome = {}
+        for line in p.stdout.splitlines():
+            q = line.split('\t')
+            outcome[q[0]] = q[1]
+        with open(os.path.join(d, 'table.txt'), 'w') as f:
+            for i, t in enumerate(texts):
+                f.write('%s %s\n' % (hx(t), os.path.join(d, 't%d.code' % i) if outcome.get('t%d' % i) == 'OK' else 'ERR'))
+        # constants of the header
+        q = subprocess.run([PVUNIT, 'unit'], input='hdr %s\n' % hx('x'), stdout=subprocess.PIPE, text=True)
+        hdr = bytes.fromhex(q.stdout.split(' ')[1].strip()).decode()
+        first = hdr.splitlines()[0]
+        version = first.split(' v')[1].split(' built at ')[0]
+        build_time = first.split(' built at ')[1]
+        with open(os.path.join(d, 'consts.txt'), 'w') as f:
+            f.write(version + '\n' + build_time + '\n')
+        with open(os.path.join(d, 'histories.txt'), 'w') as f:
+            f.write('\n'.join(fs_lines(hs)) + '\n')
+        pi = subprocess.run([PVUNIT, 'fs', d], stdout=subprocess.PIPE, stderr=subprocess.DEVNULL, text=True, timeout=3000)
+        pm = subprocess.run([PEGVERIF, 'fs', d], stdout=subprocess.PIPE, stderr=subprocess.PIPE, text=True, timeout=3000)
+        if pm.returncode != 0:
+            raise RuntimeError('model fs driver failed: ' + pm.stderr[-1000:])
+        # expected outputs (ground truth for R_prop): hash of header+prefix+code for the current grammar/prefix
+        return pi.stdout.splitlines(), pm.stdout.splitlines(), dict(version=version, build_time=build_time, outcome=outcome, header_sample=hdr)
+    finally:
+        shutil.rmtree(d, ignore_errors=True)
+
+
+def run_C18(seed, tier):
+    t0 = time.time()
+    hs = fs_histories(seed, tier)
+    impl, model, info = run_fs(hs, 'fs')
+    res = dict(evaluations=0, nontrivial=set(), samples=[], strict=[], prop=[], distribution=collections.Counter())
+    im = {tuple(l.split(' ')[:2]): l.split(' ')[2:] for l in impl}
+    mo = {tuple(l.split(' ')[:2]): l.split(' ')[2:] for l in model}
+    for i, (mode, ops) in enumerate(hs):
+        k = 0
+        prev_hash = 'NONE'
+        for oi, o in enumerate(ops):
+            if o == 'D':
+                prev_hash = 'NONE'
+            if o == 'R':
+                key = ('h%d' % i, str(k))
+                a, b = im.get(key), mo.get(key)
+                res['evaluations'] += 1
+                res['distribution'][(a or ['missing'])[0]] += 1
+                rp = dict(kind='fs', history=ops, mode=mode, run_index=k, impl=a, model=b, what='',
+                          ops_until_run=ops[:oi + 1], grammars=GRAMMARS_OK + list(K1_PAIR), bad_grammars=GRAMMARS_BAD, prefixes=PREFIXES)
+                if a is None or a[0] == 'PANIC' or b is None:
+                    rp['what'] = 'Compile::run panicked or produced no answer'
+                    res['prop'].append(rp)
+                else:
+                    fresh = b[3]
+                    if a[0] == 'OK' and fresh in ('UNCOMPILABLE', 'UNREADABLE'):
+                        rp['what'] = 'run reported success although the grammar is %s' % fresh.lower()
+                        res['prop'].append(rp)
+                    elif a[0] == 'OK' and a[1] != fresh:
+                        rp['what'] = 'after a successful run the destination is not the compilation of the current grammar and prefix'
+                        res['prop'].append(rp)
+                    elif a[0] == 'OK' and prev_hash == fresh and a[2] != '0':
+                        rp['what'] = 'an up-to-date destination was rewritten'
+                        res['prop'].append(rp)
+                    elif a[0] == 'ERR' and (a[1] != prev_hash or a[2] != '0'):
+                        rp['what'] = 'a failing run modified the destination'
+                        res['prop'].append(rp)
+                    elif a[0] == 'ERR' and fresh not in ('UNCOMPILABLE', 'UNREADABLE'):
+                        rp['what'] = 'run failed on a readable, valid grammar'
+                        res['prop'].append(rp)
+                    if a[:3] != b[:3]:
+                        rp2 = dict(rp)
+                        rp2['what'] = 'build-script run: model vs implementation (result, destination hash, rewritten)'
+                        res['strict'].append(rp2)
+                    prev_hash = a[1]
+                k += 1
+        res['nontrivial'].add((mode, tuple(o[0] for o in ops)))
+    res['samples'] = [dict(mode=hs[j][0], ops=hs[j][1], impl=[im.get(('h%d' % j, str(q))) for q in range(hs[j][1].count('R'))]) for j in (0, 3, len(hs) - 1)]
+    res['engine'] = 'fsdiff'
+    res['rule'] = ('histories of {edit grammar (4 valid, 5 invalid texts, delete), set prefix (7 prefixes incl. proper prefixes of each other and empty), delete destination, run} '
+                   'of length <= 13 against the real Compile in a scratch directory, file / explicit destination / directory mode; per run: Result, destination content hash, rewritten or untouched; '
+                   'distinct per (mode, operation kinds)')
+    res['assumptions'] = ['rustfmt (`format()`) is not exercised: it rewrites the destination after the fact and is outside the model',
+                          'the grammar compiler is a table built by calling the real library route once per grammar text']
+    res['wall_s'] = time.time() - t0
+    res['info'] = info
+    return res
 
 
 def run(pid, seed, tier):
+    if pid == 'C11':
+        return run_C11(seed, tier)
+    if pid == 'C18':
+        return run_C18(seed, tier)
     raise RuntimeError('no engine registered for ' + pid)
 
 
 def replay(pid, v, path):
+    if v.get('kind') == 'unit' and v.get('op') == 'pretty':
+        t, p, f = v['text'], v['position'], v.get('file')
+        impl, model = run_unit(['pretty %s %d %s' % (hx(t), p, hx(f) if f is not None else '-')])
+        exp = expected_pretty(t, p, f)
+        print('text %r position %d' % (t, p))
+        print('implementation:', impl[0])
+        print('model         :', model[0])
+        ok = impl[0].startswith('P ') and bytes.fromhex(impl[0][2:]).decode() == exp and impl[0] == model[0]
+        if not ok:
+            print('VIOLATION property=%s replay=%s' % (pid, path))
+            return 1
+        print('no disagreement on this case now')
+        return 0
+    if v.get('kind') == 'unit':
+        impl, model = run_unit([v['op']])
+        print(v['op'])
+        print('implementation:', impl[0])
+        print('model         :', model[0])
+        if impl[0] != model[0] or impl[0].startswith(('PANIC', 'CRASH')):
+            print('VIOLATION property=%s replay=%s' % (pid, path))
+            return 1
+        return 0
+    if v.get('kind') == 'fs':
+        impl, model, info = run_fs([(v['mode'], v['history'])], 'fsreplay')
+        print('history', v['mode'], v['history'])
+        print('implementation:', impl)
+        print('model         :', model)
+        if impl != model:
+            print('VIOLATION property=%s replay=%s' % (pid, path))
+            return 1
+        return 0
     print('unknown replay kind', v.get('kind'))
     return 2
